@@ -186,7 +186,8 @@ class Driver:
                     "history_rows": len(self.backend.order),
                     "terminal_at_start": dict(self.backend.terminal_paths())}
         ex = Exec(chooser=self.chooser, policy=cfg["policy"], start=self.clock, horizon=cfg["horizon"],
-                  timer_choices=cfg["timer_choices"], tick0=self.tick_, line_files=cfg["line_files"],
+                  timer_choices=cfg["timer_choices"], tick0=self.tick_,
+                  line_files=set(cfg["line_files"]) if cfg["line_files"] else None,
                   max_steps=cfg["max_steps"])
         self.ex = ex
         self.running = True
